@@ -490,7 +490,12 @@ func generateReceiveMethod(file *jen.File, itf *idl.InterfaceType) error {
 
 	prelude := jen.Comment("action dispatch")
 	if itf.Name == "Object" {
-		prelude = jen.Id(`from = p.impl.Tracer(msg, from)`)
+		// every generated stub is reached through the Object
+		// stub: only requests may run a method.
+		prelude = jen.Id(`if msg.Header.Type != net.Call && msg.Header.Type != net.Post {
+		return fmt.Errorf("unexpected message type: %d", msg.Header.Type)
+	}
+	from = p.impl.Tracer(msg, from)`)
 	}
 
 	method := func(m object.MetaMethod, methodName string) error {
